@@ -321,17 +321,19 @@ End AddTrait.
    mutations AND add_trait *)
 Inductive cop3 :=
 | C2 (c : cop2)
-| CAdd (x : oid) (f : fname) (v : list oid).      (* x.add_trait(f, ...) of a new name; the trait then holds v *)
+| CAdd (x : oid) (f : fname) (v : list oid)       (* x.add_trait(f, ...) of a new name; the trait then holds v *)
+| CReAdd (x : oid) (f : fname) (v : list oid).    (* x.add_trait(f, ...) of a name that already is a trait of x *)
 Definition dop_of3 (c : cop3) : dop :=
-  match c with C2 c' => dop_of2 c' | CAdd x f v => DAddTrait x f v end.
+  match c with C2 c' => dop_of2 c' | CAdd x f v | CReAdd x f v => DAddTrait x f v end.
 Definition live_after3 (R : list reg) (c : cop3) (ob : obs) : list reg :=
-  match c with C2 c' => live_after2 R c' ob | CAdd _ _ _ => R end.
+  match c with C2 c' => live_after2 R c' ob | CAdd _ _ _ | CReAdd _ _ _ => R end.
 (* add_trait is admissible if the name is new on a HasTraits object, the object's new trait is not reachable from the
    value the trait starts with, and the live registrations stay valid *)
 Definition admissible3 (h : heap) (R : list reg) (c : cop3) : Prop :=
   match c with
   | C2 c' => admissible2 h R c'
   | CAdd x f v => has_trait h x f = false /\ is_ht h x = true /\ aacyclic h x f v /\ flags_ok (add_trait_h h x f v) R
+  | CReAdd x f v => has_trait h x f = true
   end.
 Fixpoint crun3 (d : dstate) (R : list reg) (ops : list cop3) : dstate * list reg * list (cop3 * obs) :=
   match ops with
@@ -346,18 +348,23 @@ Fixpoint admissible_run3 (d : dstate) (R : list reg) (ops : list cop3) : Prop :=
               admissible_run3 (fst (dstep d (dop_of3 c))) (live_after3 R c (snd (dstep d (dop_of3 c)))) r
   end.
 Definition quiet_outcome3 (c : cop3) (ob : obs) : Prop :=
-  match c with C2 c' => quiet_outcome c' ob | CAdd _ _ _ => o_out ob = None end.
+  match c with
+  | C2 c' => quiet_outcome c' ob
+  | CAdd _ _ _ => o_out ob = None
+  | CReAdd _ _ _ => o_out ob = None /\ o_calls ob = []      (* re-definition: trait_added is not fired, nobody is called *)
+  end.
 
 Lemma cstep3 d R c d1 ob : dstate_inv d R -> admissible3 (d_heap d) R c -> dstep d (dop_of3 c) = (d1, ob) ->
   dstate_inv d1 (live_after3 R c ob) /\ quiet_outcome3 c ob.
 Proof.
-  intros I Ad S. destruct c as [c'|x f v]; cbn [dop_of3 live_after3 admissible3 quiet_outcome3] in *.
+  intros I Ad S. destruct c as [c'|x f v|x f v]; cbn [dop_of3 live_after3 admissible3 quiet_outcome3] in *.
   - apply (cstep2 d R c' d1 ob I Ad S).
   - destruct I as [I [Dh Do]]. destruct Ad as (New & Ht & A & F').
     cbn [dstep] in S. rewrite New in S.
     destruct (add_trait_step (d_heap d) x f v New Ht A R (st_hooks (d_st d)) (d_st d) I F' Dh Do) as (H' & calls & E & I').
     rewrite E in S. inversion S; subst d1 ob. cbn [o_out]. split; [|reflexivity].
     split; [exact I'|split; assumption].
+  - cbn [dstep] in S. rewrite Ad in S. inversion S; subst d1 ob. split; [exact I|split; reflexivity].
 Qed.
 
 Lemma dyn3_hooks_are_expected : forall ops d R d' R' tr, dstate_inv d R -> admissible_run3 d R ops ->
@@ -409,4 +416,56 @@ Proof.
   - apply Nat.ltb_ge in Z. split; [discriminate|]. intros (g & y & Hin & M). exfalso.
     assert (0 < tot h R (x, F_TA) (CK (AUser k))); [|lia].
     apply (tot_in_pos _ _ _ _ k g y Hin). apply (plan_matched _ k g y (x, F_TA) (F k g y Hin)). exact M.
+Qed.
+
+(* ------------------------------------------------------------------ who is called, step by step *)
+(* the slot (observable) a history step fires *)
+Definition slot_of (c : cop) : option obsv :=
+  match c with CChange o f => Some (o, f) | CLink x f _ => Some (x, f) | _ => None end.
+Definition slot_of2 (c : cop2) : option obsv :=
+  match c with C1 c' => slot_of c' | CItems c0 _ _ _ _ => Some (c0, F_ITEMS) end.
+Definition slot_of3 (c : cop3) : option obsv :=
+  match c with C2 c' => slot_of2 c' | CAdd x _ _ => Some (x, F_TA) | CReAdd _ _ _ => None end.
+
+Lemma cstep3_calls d R c d1 ob k : dstate_inv d R -> wfH (st_hooks (d_st d)) -> admissible3 (d_heap d) R c ->
+  dstep d (dop_of3 c) = (d1, ob) ->
+  match slot_of3 c with
+  | Some sg => ncalls k (o_calls ob) <= 1 /\
+               (ncalls k (o_calls ob) = 1 <-> exists g x, In (k, g, x) R /\ l_matched (d_heap d) g x sg = true)
+  | None => o_calls ob = []
+  end.
+Proof.
+  intros I W Ad S. pose proof I as [I0 [Dh Do]].
+  destruct c as [[[x hd dp g|x hd dp g|o f|x0 f0 v]|c0 v removed added rest]|x f v|x f v];
+    cbn [slot_of3 slot_of2 slot_of dop_of3 dop_of2 dop_of admissible3 admissible2 admissible] in *.
+  - cbn [dstep] in S. destruct (step (d_heap d) (d_st d) (Register x hd dp [g])) as [s' ob'] eqn:St. inversion S; subst d1 ob.
+    cbn [step] in St. destruct (apply_observers _ _ _ _ _ _). inversion St; subst. reflexivity.
+  - cbn [dstep] in S. destruct (step (d_heap d) (d_st d) (Unregister x hd dp [g])) as [s' ob'] eqn:St. inversion S; subst d1 ob.
+    cbn [step] in St. destruct (apply_observers _ _ _ _ _ _). inversion St; subst. reflexivity.
+  - cbn [dstep] in S. destruct (step (d_heap d) (d_st d) (Change o f)) as [s' ob'] eqn:St. inversion S; subst d1 ob.
+    apply (dyn_once_per_change d R o f s' ob' k I W St).
+  - destruct Ad as [A F']. cbn [dstep] in S.
+    destruct (link_step (d_heap d) x0 f0 v A R (st_hooks (d_st d)) (d_st d) I0 F' Dh Do) as (H' & calls & E & _).
+    rewrite E in S. inversion S; subst d1 ob. cbn [o_calls].
+    apply (slot_calls (d_heap d) _ R (st_hooks (d_st d)) (d_st d) (x0, f0) true _ _ H' calls k I0 W Dh Do E).
+  - destruct Ad as (Wf & Hc0 & Po & Pn & A & F'). cbn [dstep] in S.
+    destruct (items_step (d_heap d) c0 v removed added rest Wf Hc0 Po Pn A R (st_hooks (d_st d)) (d_st d) I0 F' Dh Do)
+      as (H' & calls & E & _).
+    rewrite E in S. inversion S; subst d1 ob. cbn [o_calls].
+    apply (slot_calls (d_heap d) _ R (st_hooks (d_st d)) (d_st d) (c0, F_ITEMS) false _ _ H' calls k I0 W Dh Do E).
+  - destruct Ad as (New & Ht & A & F'). cbn [dstep] in S. rewrite New in S.
+    destruct (add_trait_step (d_heap d) x f v New Ht A R (st_hooks (d_st d)) (d_st d) I0 F' Dh Do) as (H' & calls & E & _).
+    rewrite E in S. inversion S; subst d1 ob. cbn [o_calls].
+    apply (add_trait_calls (d_heap d) _ R (st_hooks (d_st d)) (d_st d) x f H' calls k I0 W Dh Do E).
+  - cbn [dstep] in S. rewrite Ad in S. inversion S; subst. reflexivity.
+Qed.
+
+Lemma crun3_wf : forall ops d R d' R' tr, wfH (st_hooks (d_st d)) -> crun3 d R ops = (d', R', tr) ->
+  wfH (st_hooks (d_st d')).
+Proof.
+  induction ops as [|c ops IH]; intros d R d' R' tr W Cr; cbn [crun3] in Cr.
+  - inversion Cr; subst. exact W.
+  - destruct (dstep d (dop_of3 c)) as [d1 ob] eqn:S.
+    destruct (crun3 d1 (live_after3 R c ob) ops) as [[d2 R2] tr2] eqn:Cr2. inversion Cr; subst.
+    apply (IH _ _ _ _ _ (dstep_wf _ _ _ _ W S) Cr2).
 Qed.
